@@ -87,6 +87,10 @@ Lemma src_clientV2_RequeuedMessage : shape_clientV2_RequeuedMessage = expect_cli
 Proof. reflexivity. Qed.
 Lemma src_clientV2_StartClose : shape_clientV2_StartClose = expect_clientV2_StartClose.
 Proof. reflexivity. Qed.
+Lemma src_clientV2_Empty : shape_clientV2_Empty = expect_clientV2_Empty.
+Proof. reflexivity. Qed.
+Lemma src_Channel_initPQ : shape_Channel_initPQ = expect_Channel_initPQ.
+Proof. reflexivity. Qed.
 Lemma src_protocolV2_NewClient : shape_protocolV2_NewClient = expect_protocolV2_NewClient.
 Proof. reflexivity. Qed.
 Lemma src_Channel_doPause : shape_Channel_doPause = expect_Channel_doPause.
@@ -111,4 +115,4 @@ Lemma src_pump_sources : cases_of shape_protocolV2_messagePump = expect_pump_sou
 Proof. reflexivity. Qed.
 
 Lemma src_C08 : src_facts_C08.
-Proof. unfold src_facts_C08. repeat split; first [exact src_protocolV2_FIN | exact src_protocolV2_REQ | exact src_protocolV2_TOUCH | exact src_protocolV2_CLS | exact src_protocolV2_SendMessage | exact src_Channel_put | exact src_Channel_PutMessage | exact src_Channel_PutMessageDeferred | exact src_Channel_StartInFlightTimeout | exact src_Channel_StartDeferredTimeout | exact src_Channel_FinishMessage | exact src_Channel_RequeueMessage | exact src_Channel_TouchMessage | exact src_Channel_pushInFlightMessage | exact src_Channel_popInFlightMessage | exact src_Channel_processInFlightQueue | exact src_Channel_processDeferredQueue | exact src_Channel_flush | exact src_Channel_exit | exact src_Channel_Empty | exact src_Channel_empty | exact src_Channel_AddClient | exact src_Channel_RemoveClient | exact src_Topic_messagePump | exact src_Topic_put | exact src_Topic_PutMessage | exact src_Topic_PutMessages | exact src_Topic_flush | exact src_Topic_exit | exact src_Topic_GetChannel | exact src_Topic_DeleteExistingChannel | exact src_NSQD_GetTopic | exact src_NSQD_DeleteExistingTopic | exact src_NSQD_Exit | exact src_clientV2_SetReadyCount | exact src_clientV2_IsReadyForMessages | exact src_clientV2_SendingMessage | exact src_clientV2_FinishedMessage | exact src_clientV2_TimedOutMessage | exact src_clientV2_RequeuedMessage | exact src_clientV2_StartClose | exact src_protocolV2_NewClient | exact src_Channel_doPause | exact src_Topic_doPause | exact src_Channel_popDeferredMessage | exact src_Channel_pushDeferredMessage | exact src_Channel_addToInFlightPQ | exact src_Channel_addToDeferredPQ | exact src_pump_loop_head | exact src_pump_not_ready | exact src_pump_deliver | exact src_pump_sources]. Qed.
+Proof. unfold src_facts_C08. repeat split; first [exact src_protocolV2_FIN | exact src_protocolV2_REQ | exact src_protocolV2_TOUCH | exact src_protocolV2_CLS | exact src_protocolV2_SendMessage | exact src_Channel_put | exact src_Channel_PutMessage | exact src_Channel_PutMessageDeferred | exact src_Channel_StartInFlightTimeout | exact src_Channel_StartDeferredTimeout | exact src_Channel_FinishMessage | exact src_Channel_RequeueMessage | exact src_Channel_TouchMessage | exact src_Channel_pushInFlightMessage | exact src_Channel_popInFlightMessage | exact src_Channel_processInFlightQueue | exact src_Channel_processDeferredQueue | exact src_Channel_flush | exact src_Channel_exit | exact src_Channel_Empty | exact src_Channel_empty | exact src_Channel_AddClient | exact src_Channel_RemoveClient | exact src_Topic_messagePump | exact src_Topic_put | exact src_Topic_PutMessage | exact src_Topic_PutMessages | exact src_Topic_flush | exact src_Topic_exit | exact src_Topic_GetChannel | exact src_Topic_DeleteExistingChannel | exact src_NSQD_GetTopic | exact src_NSQD_DeleteExistingTopic | exact src_NSQD_Exit | exact src_clientV2_SetReadyCount | exact src_clientV2_IsReadyForMessages | exact src_clientV2_SendingMessage | exact src_clientV2_FinishedMessage | exact src_clientV2_TimedOutMessage | exact src_clientV2_RequeuedMessage | exact src_clientV2_StartClose | exact src_clientV2_Empty | exact src_Channel_initPQ | exact src_protocolV2_NewClient | exact src_Channel_doPause | exact src_Topic_doPause | exact src_Channel_popDeferredMessage | exact src_Channel_pushDeferredMessage | exact src_Channel_addToInFlightPQ | exact src_Channel_addToDeferredPQ | exact src_pump_loop_head | exact src_pump_not_ready | exact src_pump_deliver | exact src_pump_sources]. Qed.
